@@ -367,7 +367,9 @@ class Interp:
 
 
 def short_ty(path):
-    """'fq2::Fq2' -> 'Fq2', 'fields::fq4::Fq4' -> 'Fq4', 'G::<P>' -> 'G'"""
+    """canonical struct name of an aggregate: inner types by name, lib.rs newtypes as L<name>"""
+    from contracts import norm_types
     p = re.sub(r'::<.*>$', '', path.strip())
+    p = norm_types(p)
     p = re.sub(r'<.*>', '', p)
     return p.split('::')[-1]
